@@ -501,3 +501,41 @@ Proof.
   split; [intros a b; apply Z.compare_antisym|].
   intros a b c. rewrite !Z.compare_lt_iff. lia.
 Qed.
+
+(* ---------- the value is determined by the text ---------- *)
+Definition lex_val (s : bytes) : Z :=
+  let '(neg, ds, _) := scan_num (cstr (skip_space s)) in
+  if neg then (- Z.of_N (dec_to_N ds))%Z else Z.of_N (dec_to_N ds).
+
+Lemma ly_int_lex_val s v : ly_int_lex s v -> lex_val s = v.
+Proof.
+  intro Hlex. destruct Hlex as [ws1 core ws2 tl v Hws1 Hws2 Htl Hcore].
+  destruct Hcore as [sg ds Hsg Hne Hds].
+  unfold lex_val. rewrite skip_space_app_ws by exact Hws1.
+  destruct (core_head sg ds Hsg Hne Hds) as [c0 [r0 [Hc [Hsp _]]]].
+  rewrite Hc. cbn [app]. rewrite (skip_space_id c0 _ Hsp).
+  change (c0 :: r0 ++ ws2 ++ tl) with ((c0 :: r0) ++ ws2 ++ tl). rewrite <- Hc.
+  rewrite app_assoc.
+  rewrite cstr_app; [|apply no_nul_app; [apply no_nul_app; [apply no_nul_sign; exact Hsg|apply no_nul_digits; exact Hds]|apply no_nul_spaces; exact Hws2]|exact Htl].
+  rewrite (scan_num_core sg ds ws2 Hsg Hne Hds Hws2). unfold sign_val.
+  destruct (beq_bytes sg [45]); reflexivity.
+Qed.
+
+Lemma ly_int_lex_det s v w : ly_int_lex s v -> ly_int_lex s w -> v = w.
+Proof. intros Hv Hw. rewrite <- (ly_int_lex_val s v Hv), <- (ly_int_lex_val s w Hw). reflexivity. Qed.
+
+(* lyplg_type_parse_int on  sign digits  (what lyplg_type_parse_dec64 hands over) *)
+Lemma plg_parse_int_core sg ds min max v :
+  (- Z.of_N I64MAX - 1 <= min)%Z -> (max <= Z.of_N I64MAX)%Z ->
+  is_sign sg -> ds <> [] -> all_digit ds ->
+  (plg_parse_int (sg ++ ds) min max = Ok v <->
+   v = sign_val sg (dec_to_N ds) /\ (min <= v <= max)%Z).
+Proof.
+  intros Hmin Hmax Hsg Hne Hds.
+  assert (Hlex : ly_int_lex (sg ++ ds) (sign_val sg (dec_to_N ds))).
+  { apply rfc_lex_is_ly_lex. apply RfcInt; assumption. }
+  split.
+  - intro H. apply plg_parse_int_ok in H. destruct H as [Hl Hb].
+    split; [|exact Hb]. exact (ly_int_lex_det _ _ _ Hl Hlex).
+  - intros [-> Hb]. apply plg_parse_int_complete; assumption.
+Qed.
